@@ -58,12 +58,14 @@ def plant(rng, root):
         p["children"].insert(pos, bad)
         return kind, p, root, good
     o = rng.choice(objs)
+    cands = [x for x in objs if any(a == "ALayout" and ms for a, ms in x["attached"])]
     if kind == "duplicate-attached":
-        cands = [x for x in objs if any(a == "ALayout" and ms for a, ms in x["attached"])]
         if not cands:
             kind = "unknown-property"
         else:
             o = rng.choice(cands)
+    elif kind in ("unknown-attached-type", "unknown-attached-property") and cands and rng.random() < 0.7:
+        o = rng.choice(cands)          # next to valid attached bindings, whose effect reaches the siblings
     if o["id"] is None:
         o["id"] = o["oid"]          # the faulted object is addressed by its id
     for x in U.walk(root):
